@@ -88,6 +88,70 @@ func InjectBad(w *model.World, r *sim.RNG, p float64, max int, allowNull bool) i
 	return n
 }
 
+// injectOddTargets (C04 only) adds targets that are legal JSON but no schemas - a null member, a
+// definition whose additionalProperties / additionalItems are booleans - and points some
+// references at or through them.
+func injectOddTargets(w *model.World, r *sim.RNG) {
+	us := make([]string, 0, len(w.Docs))
+	for u := range w.Docs {
+		if m, ok := w.Docs[u].(map[string]interface{}); ok {
+			if _, sw := m["swagger"]; sw {
+				us = append(us, u)
+			}
+		}
+	}
+	if len(us) == 0 {
+		return
+	}
+	sort.Strings(us)
+	tu := us[r.Intn(len(us))]
+	doc := w.Docs[tu].(map[string]interface{})
+	defs, _ := doc["definitions"].(map[string]interface{})
+	if defs == nil {
+		defs = map[string]interface{}{}
+		doc["definitions"] = defs
+	}
+	defs["Closed"] = map[string]interface{}{"description": "closed", "additionalProperties": false, "additionalItems": true, "type": "object"}
+	defs["Null"] = nil
+	doc["x-null"] = nil
+	ptrs := []string{"/definitions/Closed/additionalProperties/properties/name", "/definitions/Closed/additionalItems/items", "/definitions/Closed/additionalProperties",
+		"/definitions/Null", "/x-null", "/definitions/Null/properties/a", "/definitions/Closed/not", "/definitions/Closed/items/0"}
+	n := 0
+	var visit func(u string, v interface{})
+	visit = func(u string, v interface{}) {
+		switch c := v.(type) {
+		case map[string]interface{}:
+			if _, ok := c["$ref"].(string); ok {
+				if _, isParam := c["name"]; !isParam && n < 3 && r.Intn(6) == 0 {
+					c["$ref"] = gen.SpellRef(r, u, tu, ptrs[r.Intn(len(ptrs))], r.Intn(3))
+					n++
+				}
+				return
+			}
+			ks := make([]string, 0, len(c))
+			for k := range c {
+				ks = append(ks, k)
+			}
+			sort.Strings(ks)
+			for _, k := range ks {
+				visit(u, c[k])
+			}
+		case []interface{}:
+			for _, x := range c {
+				visit(u, x)
+			}
+		}
+	}
+	all := make([]string, 0, len(w.Docs))
+	for u := range w.Docs {
+		all = append(all, u)
+	}
+	sort.Strings(all)
+	for _, u := range all {
+		visit(u, w.Docs[u])
+	}
+}
+
 // DrawFaults places up to n faults, preferring URLs in `prefer` (the ones an expansion requests).
 func DrawFaults(w *model.World, r *sim.RNG, n int, kinds []string, prefer map[string]bool, allowRoot bool) []sim.Fault {
 	var pref, other []string
@@ -130,7 +194,7 @@ type c04 struct{}
 
 func init() {
 	register(c04{})
-	expectedProbes["C04"] = []string{"ill-founded-element-cycle", "schema-with-id", "unresolvable-ref", "fault-fired", "cyclic-world", "returned-error", "returned-value", "entry:ExpandSpec", "entry:ExpandSchema", "entry:ExpandParameterWithRoot", "entry:ExpandResponse"}
+	expectedProbes["C04"] = []string{"ill-founded-element-cycle", "schema-with-id", "unresolvable-ref", "fault-fired", "cyclic-world", "returned-error", "returned-value", "entry:ExpandSpec", "entry:ExpandSchema", "entry:ExpandParameterWithRoot", "entry:ExpandResponse", "null-or-boolean-target"}
 }
 
 func (c04) ID() string { return "C04" }
@@ -168,6 +232,9 @@ func (c04) Gen(r *sim.RNG, tier string, idx int) *Scenario {
 		sc.World = gen.Generate(r, cfg)
 		if r.Bool(0.4) {
 			InjectBad(sc.World, r, 0.15, 3, true)
+		}
+		if r.Bool(0.3) {
+			injectOddTargets(sc.World, r)
 		}
 		if excluded["relative-dir-id-on-cycle"] {
 			stripRelDirIDsIfCyclic(sc.World)
@@ -323,6 +390,11 @@ func (c04) Run(sc *Scenario) *Verdict {
 	}
 	if reach.IllFound {
 		v.probe("ill-founded-element-cycle")
+	}
+	for _, h := range reach.Holders {
+		if strings.Contains(h.Ref, "/definitions/Closed/") || strings.Contains(h.Ref, "/definitions/Null") || strings.Contains(h.Ref, "/x-null") {
+			v.probe("null-or-boolean-target")
+		}
 	}
 	if hasID {
 		v.probe("schema-with-id")
